@@ -31,6 +31,7 @@ def run(ctx):
     for fv in (fs, fm):
         if fv is not None:
             rule_locked_take(ctx, "C10.L", fv, 1)
+            rule_spawn_count(ctx, "C10.L", fv, fv.path.split("::")[-1])
     if fs is not None:
         s2m_rules(ctx, fs)
     if fm is not None:
@@ -48,8 +49,9 @@ def run(ctx):
         c02.decode_rules(dep(ctx, "C10", "C02"), tab)
     from . import c06
     c06.reader_deps(ctx, "C10")
-    from . import c15
+    from . import c15, c17
     c15.cli_arm_dep(ctx, "C10", ('Min',))
+    c17.open_rules(dep(ctx, "C10", "C17"))          # "exactly one line per input record": the listing is truncated on open
 
 
 def s2m_rules(ctx, fv):
